@@ -225,10 +225,10 @@ Proof.
   apply append_impl_safe; try assumption; rewrite ?nlen_carr; unfold M64 in *; lia.
 Qed.
 
-Lemma append_fss_safe s o pos count :
-  Inv L s -> Inv L o -> pos < M64 -> count < M64 -> safe L (append_fss L s o pos count).
+Lemma append_fss_safe Lo s o pos count :
+  Inv L s -> Inv Lo o -> Lo + 1 < M64 -> pos < M64 -> count < M64 -> safe L (append_fss L s o pos count).
 Proof.
-  intros Hs (Hbo & Hlo & Hzo) Hp Hc. unfold append_fss. destruct HL as [HL1 HL2].
+  intros Hs (Hbo & Hlo & Hzo) HLo Hp Hc. unfold append_fss. destruct HL as [HL1 HL2].
   destruct (N.ltb_spec (len o) pos); [apply safe_ok; assumption|].
   rewrite sub64_small by (unfold M64 in *; lia).
   apply append_impl_safe; try assumption; rewrite ?Hbo; unfold M64 in *; lia.
@@ -350,11 +350,11 @@ Proof.
   apply insert_pc_safe; try assumption; rewrite ?nlen_carr, ?nlen_take, ?nlen_drop; unfold M64 in *; lia.
 Qed.
 
-Lemma insert_fss_safe s o index is count :
-  Inv L s -> Inv L o -> index < M64 -> is < M64 -> count < M64 ->
+Lemma insert_fss_safe Lo s o index is count :
+  Inv L s -> Inv Lo o -> Lo + 1 < M64 -> index < M64 -> is < M64 -> count < M64 ->
   safe L (insert_fss L s o index is count).
 Proof.
-  intros Hs (Hbo & Hlo & Hzo) Hi His Hc. unfold insert_fss. destruct HL as [HL1 HL2].
+  intros Hs (Hbo & Hlo & Hzo) HLo Hi His Hc. unfold insert_fss. destruct HL as [HL1 HL2].
   destruct (N.ltb_spec (len o) is); [apply safe_ok; assumption|].
   rewrite sub64_small by (unfold M64 in *; lia).
   apply insert_pc_safe; try assumption; rewrite ?nlen_drop, ?Hbo; unfold M64 in *; lia.
